@@ -420,11 +420,14 @@ package kafka
 //@ lock (*LeastBytes).mutex as lb
 //@   guards counters
 
-//@ property C10 C02
+//@ property C10 C02 C06 C11
 
+// C06/C11: the read lock handed to a Batch is released only after the rest of the fetch response was drained, whatever
+// state the batch is in - otherwise the next operation on the Conn would take the leftover bytes for its own response.
 //@ func (*messageSetReader).discard
 //@   trusted drains the rest of the fetch response from the connection; touches only the reader and the stream
-//@   modifies *r, region($rpos)
+//@   modifies *r, region($rpos), r.$drained
+//@   ensures r.$drained
 //@ func releaseBuffer
 //@   trusted resets the buffer and puts it into bufferPool
 //@   modifies *b
@@ -440,6 +443,7 @@ package kafka
 //@   modifies heap
 //@   ensures batch.conn == nil && batch.lock == nil
 //@   ensures batch.msgs != nil ==> batch.msgs.decompressed == nil
+//@   ensures batch.msgs != nil ==> batch.msgs.$drained
 
 //@ property C18
 
